@@ -55,6 +55,25 @@ def deep_cases(n):
         "unopened": lambda n: "1" + ")" * n,
         "quotes": lambda n: '"' + "a" * n,
         "operators": lambda n: "+" * n,
+        "blocks": lambda n: "[]" * n + " 6",
+        "blocks_spaced": lambda n: "[1] " * n + "6",
+        "blocks_after_value": lambda n: "5" + "[1]" * n + " 6",
+        "groups_list": lambda n: "(1) " * n + "2",
+        "exprs_list": lambda n: "{1} " * n + "2",
+        "annotations": lambda n: "@a " * n + "5",
+        "comment_lines": lambda n: "@@ c\n" * n + "5",
+        "terminators": lambda n: "5;" * n,
+        "semis_in_expr": lambda n: "{" + "5;" * n + "6}",
+        "units": lambda n: "() " * n + "1",
+        "prefix_groups": lambda n: "--(" * n + "1" + ")" * n,
+        "suffix_on_group": lambda n: "(" * n + "1" + ")~~" * n,
+        "apply_chain": lambda n: "1" + " ~> a" * n,
+        "long_number": lambda n: "1" * n,
+        "long_identifier": lambda n: "a" * n,
+        "long_symbol_list": lambda n: ":a" + ".b" * n,
+        "long_string": lambda n: '"' + "a" * n + '"',
+        "long_bytes": lambda n: "'" + "a" * n + "'",
+        "ranges": lambda n: "1" + "..2" * n,
     }
     return [(name, n, "S " + gen_programs.hexcp(f(n))) for name, f in shapes.items()]
 
